@@ -243,6 +243,21 @@ def controller_class(kind: str, klass: str):
         name = f"User{kind.title()}{klass.title().replace('_', '')}"
         if klass == "sub":
             cls = type(name, (base,), {"user_tag": "mine"})
+        elif klass == "falsy_len":
+            # a valid user stepper that is FALSY when handed over: it records the losses it saw and offers the container
+            # protocol (__len__ = number of recorded steps: 0 at hand-over and after every reset)
+            def step(self, loss, _b=base):
+                self.__dict__.setdefault("seen_losses", []).append(1)
+                return _b.step(self, loss)
+
+            def reset(self, _b=base):
+                self.__dict__["seen_losses"] = []
+                return _b.reset(self)
+            cls = type(name, (base,), {"step": step, "reset": reset, "__len__": lambda self: len(self.__dict__.get("seen_losses", []))})
+        elif klass == "falsy_bool":
+            # a valid user controller whose truth value is continual(): falsy once it has stopped (e.g. handed to a second
+            # driver after an earlier run exhausted it — legitimate, the drivers reset their stepper)
+            cls = type(name, (base,), {"__bool__": lambda self: bool(self.continual())})
         elif klass == "sub_prop":
             # a user subclass that turns configuration ATTRIBUTES into PROPERTIES backed by its own private fields
             def mkprop(field):
